@@ -660,6 +660,7 @@ primaryexpr(struct scope *s)
 	struct type *t;
 	char *src, *end;
 	uint_least32_t chr;
+	unsigned long long val;
 	int base;
 
 	switch (tok.kind) {
@@ -688,12 +689,21 @@ primaryexpr(struct scope *s)
 		case 'L': ++src; t = targ->typewchar; break;
 		case 'u': ++src; t = *src == '8' ? ++src, &typeuchar : &typeushort; break;
 		case 'U': ++src; t = &typeuint; break;
-		default: t = &typeint;
+		default: t = NULL;
 		}
 		assert(*src == '\'');
 		++src;
 		src += decodechar(src, &chr, NULL, "character constant", &tok.loc);
-		e = mkconstexpr(t, chr);
+		val = chr;
+		if (!t) {
+			/* integer character constant: value of type char converted to int */
+			t = &typeint;
+			if (targ->signedchar && val >= 0x80 && val < 0x100)
+				val -= 0x100;
+		} else if (t->u.basic.issigned && val >> (t->size * 8 - 1) & 1) {
+			val |= -1ull << (t->size * 8 - 1);
+		}
+		e = mkconstexpr(t, val);
 		if (*src != '\'')
 			error(&tok.loc, "character constant contains more than one character: %c", *src);
 		next();
